@@ -1,4 +1,4 @@
 SPECIFICATION Spec
-CONSTANT Fams = {"core", "wide", "delim", "bytes", "errs", "noin"}
+CONSTANT Fams = {"core", "long", "wide", "delim", "bytes", "errs", "noin"}
 CONSTANT Deep = 1
 INVARIANT Emit
